@@ -174,6 +174,8 @@ def compare(cases, obs, model):
             continue
         if o in m.split(" || "):
             continue
+        if o.startswith("inconclusive:"):
+            continue  # the harness could not establish the case's precondition (counted; bounded below)
         bad.append((i, c, o, m))
     return bad
 
@@ -313,6 +315,11 @@ def main(argv):
                 breaks.append({"kind": "harness", "sig": pid.lower() + ":driver-exit", "what": "model driver failed", "detail": r.get("model_log", "")})
                 continue
             mism = compare(r["cases"], r["obs"], r["model"])
+            inconcl = [o for o in r["obs"] if o.startswith("inconclusive:")]
+            r["inconclusive"] = len(inconcl)
+            if len(inconcl) > max(3, len(r["obs"]) // 100):
+                breaks.append({"kind": "harness", "sig": pid.lower() + ":too-many-inconclusive",
+                               "what": "%d of %d cases inconclusive (%s)" % (len(inconcl), len(r["obs"]), inconcl[0]), "detail": inconcl[0]})
             # Observations of concurrent scenarios can depend on things the schedule does not fix (map
             # iteration order, goroutine wake-up order). A mismatching case is re-run in isolation;
             # it stays a break only if the implementation NEVER produces the model's line. Oracle
@@ -398,6 +405,7 @@ def main(argv):
             "correspondence_mismatches": len([b for b in breaks if b["kind"] == "correspondence"]),
             "oracle_failures": len([b for b in breaks if b["kind"] == "oracle"]),
             "known_findings_matched": sorted(listed.keys()),
+            "inconclusive_cases": sum(r.get("inconclusive", 0) for r in runs),
             "failing_input_search_cases": searched,
             "explanation": cfg.get("explanation", ""),
             "notes": notes,
